@@ -5,7 +5,7 @@ import anyio, httpcore
 opened, closed = [], []
 class S(httpcore.AsyncNetworkStream):
     async def read(self, max_bytes, timeout=None):
-        await anyio.sleep(100); return b""
+        await anyio.sleep(timeout or 100); raise httpcore.ReadTimeout()
     async def write(self, buffer, timeout=None): pass
     async def aclose(self): closed.append(self)
     async def start_tls(self, *a, **k): return self
@@ -21,10 +21,12 @@ async def main():
         print("after cancel:", pool.connections)
         stuck = len(pool.connections) == 1 and "CONNECTING" in repr(pool.connections[0])
         try:
-            await pool.request("GET", "http://other.example/", extensions={"timeout": {"pool": 0.2}})
+            await pool.request("GET", "http://other.example/", extensions={"timeout": {"pool": 0.2, "connect": 0.2}})
             dead = False
         except httpcore.PoolTimeout:
             dead = True
+        except httpcore.TimeoutException:
+            dead = False   # got a connection; the scripted proxy never answers the negotiation
         print("stuck:", stuck, "pool dead:", dead, "opened", len(opened), "closed", len(closed))
     bad = stuck and dead
     print("DEFECT-REPRODUCED" if bad else "not reproduced")
